@@ -202,6 +202,27 @@ func c15Exec(hist []c15Op, outcome func(string)) (string, bool, []lib.Problem) {
 			if msg != "" {
 				bad("accept-panic", "after-"+curOp, "accepting with a free lane panicked: %s", msg)
 			}
+		case "fill":
+			// scale family: accept until the pipeline refuses or stage 0 is
+			// visibly full, with dwell delays 0,1,2,0,1,2,...
+			for n := 0; n <= W; n++ {
+				occupied := 0
+				for _, r := range p.Stages() {
+					if r.Stage == 0 {
+						occupied++
+					}
+				}
+				if !p.CanAccept() || occupied >= W {
+					break
+				}
+				id := nextID
+				nextID++
+				d := id % (c15MaxDelay + 1)
+				items[id] = &c15Item{acceptTick: ticks, delay: d}
+				if msg := lib.Catch(func() { p.AcceptWithDelay(id, d) }); msg != "" {
+					bad("accept-panic", "after-"+curOp, "accepting with a free lane panicked: %s", msg)
+				}
+			}
 		case "tick":
 			class = fmt.Sprintf("tick-emit%d", tick(-1))
 		case "tick1":
@@ -281,7 +302,7 @@ func init() {
 	lib.Register(&lib.Check{
 		ID:    "C15",
 		Level: "model_checking",
-		Rule: "explicit-state BFS over histories of {Accept, AcceptWithDelay(0|1|2) (both only while a lane is free), Tick(sink has room), Tick(sink takes exactly one item; width>1), Tick(sink full), JSON round trip} on the real queueing.Pipeline[int] for width {1,2,3} x stages {1,2,3}, " +
+		Rule: "explicit-state BFS over histories of {Accept, AcceptWithDelay(0|1|2) (both only while a lane is free), Tick(sink has room), Tick(sink takes exactly one item; width>1), Tick(sink full), JSON round trip} on the real queueing.Pipeline[int] for width {1,2,3} x stages {1,2,3}, plus a scale family on (width,stages) in {(16,1),(17,2),(20,8),(33,5),(3,50)} [thorough +(17,1),(40,1),(64,3),(129,1)]: every sequence of 5 rounds {fill every free lane with dwell delays 0,1,2,..; tick kind in {free sink, one item, full sink}} with a JSON round trip after round 2, " +
 			"8 (quick) / 12 (thorough) steps, each history followed by a drain phase of stages+2+steps+2 ticks with a free sink. A ledger of accepted items is the reference: after every step Stages() must hold exactly the in-flight items once each with no two sharing (lane, stage); every pushed item must be in flight; " +
 			"one-lane pipelines emit oldest-first; while every tick so far had a free sink each item leaves exactly stages+delay ticks after acceptance; after the drain phase everything has left. state = (width, stages, occupancy records in slice order with items ranked by acceptance, ages/delays while the sink was always free)",
 		MinOutcomes: 100,
@@ -311,6 +332,50 @@ func init() {
 				},
 				MaxDepth: 1 + lib.Pick(c, 8, 12),
 				Workers:  8,
+			})
+			// scale family: wide and deep pipelines (the implementation has
+			// separate paths for more than 16 lanes and more than 128
+			// stage-lane slots), every sequence of 5 rounds {fill, tick kind}
+			// with a JSON round trip after the second round
+			type ws struct{ w, s int }
+			if c.Mine(0) {
+				c.Add("bfs_plus_cases", 1)
+			}
+			lib.Cases(c, func(yield func([]c15Op) bool) {
+				for _, cfg := range lib.Pick(c, []ws{{16, 1}, {17, 2}, {20, 8}, {33, 5}, {3, 50}}, []ws{{16, 1}, {17, 1}, {17, 2}, {20, 8}, {33, 5}, {3, 50}, {40, 1}, {64, 3}, {129, 1}}) {
+					kinds := []string{"tick", "tick1", "stall"}
+					idx := make([]int, 5)
+					for {
+						h := []c15Op{{W: cfg.w, S: cfg.s, Op: "cfg"}}
+						for r, k := range idx {
+							h = append(h, c15Op{Op: "fill"}, c15Op{Op: kinds[k]})
+							if r == 1 {
+								h = append(h, c15Op{Op: "json"})
+							}
+						}
+						if !yield(h) {
+							return
+						}
+						q := len(idx) - 1
+						for q >= 0 {
+							idx[q]++
+							if idx[q] < len(kinds) {
+								break
+							}
+							idx[q] = 0
+							q--
+						}
+						if q < 0 {
+							break
+						}
+					}
+				}
+			}, func(h []c15Op) (string, []lib.Problem) {
+				key, _, probs := c15Exec(h, nil)
+				if len(probs) > 0 {
+					return "violation", probs
+				}
+				return fmt.Sprintf("scale w%d s%d %d-slots", h[0].W, h[0].S, strings.Count(key, "[")), nil
 			})
 		},
 		Replay: func(c *lib.Ctx, raw json.RawMessage) []lib.Problem {
